@@ -7,6 +7,8 @@ import (
 	"context"
 	"encoding/json"
 	"fmt"
+	"github.com/elliotchance/gedcom/v39/html"
+	"io"
 	"os"
 	"os/exec"
 	"path/filepath"
@@ -415,7 +417,7 @@ func libraryRun(g *gen.GraphBP) (fl *harness.Failure) {
 
 func TestCheckLibrary(t *testing.T) {
 	s := harness.NewSub("library-traversals",
-		"the same faulted documents through the library traversals behind the commands, in process (warnings with Name/String/Context, every individual accessor used by publish/diff incl. Age, SpouseChildren, name formats, full similarity matrix, family members, places, sources) and an in-memory publish in all three visibility modes; a recovered panic is a failure; non-trivial = at least one fault and two people")
+		"the same faulted documents through the library traversals behind the commands, in process (warnings with Name/String/Context, every individual accessor used by publish/diff incl. Age, SpouseChildren, name formats, full similarity matrix, family members, places, sources) an in-memory publish in all three visibility modes, and the diff report of one comparison rendered twice with every -show and -sort value; a recovered panic is a failure; non-trivial = at least one fault and two people")
 	s.Rapid(t, harness.Share(harness.Pick(30000, 600000)), 141, func(rt *rapid.T) {
 		g, faults := genDoc(rt)
 		nt := len(faults) >= 1 && len(g.People) >= 2
@@ -461,7 +463,39 @@ func libraryPublish(g *gen.GraphBP) *harness.Failure {
 			return harness.Failf("render-panic:"+strings.ReplaceAll(sig, " ", "_"), "rendering a page (%s) panics: %v\nfile:\n%s", vis, res.Panics, g.Text())
 		}
 	}
-	return nil
+	// the diff report of the file against the second file: one comparison, rendered with every
+	// -show and -sort value one after the other (a panic in a goroutine the page starts itself
+	// kills the process: the breadcrumb names the case)
+	if len(g.Text())%8 != 3 {
+		return nil // (an eighth of the cases: the report is the expensive part)
+	}
+	other, err := gedcom.NewDocumentFromString(otherDoc)
+	if err != nil {
+		return nil
+	}
+	var fl *harness.Failure
+	func() {
+		defer func() {
+			if p := recover(); p != nil {
+				sig := regexp.MustCompile(`[0-9]+`).ReplaceAllString(fmt.Sprint(p), "N")
+				if len(sig) > 50 {
+					sig = sig[:50]
+				}
+				fl = harness.Failf("render-panic:diff:"+strings.ReplaceAll(sig, " ", "_"), "rendering the diff report panics: %v\nfile:\n%s", p, g.Text())
+			}
+		}()
+		comparisons := doc.Individuals().Compare(other.Individuals(), gedcom.NewIndividualNodesCompareOptions())
+		for round := 0; round < 2; round++ {
+			for _, show := range []string{html.DiffPageShowSubset, html.DiffPageShowOnlyMatches, html.DiffPageShowAll} {
+				for _, sortBy := range []string{html.DiffPageSortWrittenName, html.DiffPageSortHighestSimilarity} {
+					progress := make(chan gedcom.Progress, 1000000)
+					page := html.NewDiffPage(comparisons, &gedcom.FilterFlags{}, "", show, sortBy, progress, gedcom.NewIndividualNodesCompareOptions(), html.LivingVisibilityShow)
+					_, _ = page.WriteHTMLTo(io.Discard)
+				}
+			}
+		}
+	}()
+	return fl
 }
 
 func init() {
